@@ -188,12 +188,15 @@ func (d *Decoder) readTypedMap() (interface{}, error) {
 		if err != nil {
 			return nil, err
 		}
+		if h := holderOf(value); h != nil && !h.complete {
+			return nil, errUnfinishedList
+		}
 		if mType.Kind() == reflect.Map {
 			k, err := convertValue(EnsureRawValue(key), mType.Key())
 			if err != nil {
 				return nil, err
 			}
-			v, err := convertValue(itemValue(value, mType.Elem()), mType.Elem())
+			v, err := convertValue(d.itemValue(value, mType.Elem()), mType.Elem())
 			if err != nil {
 				return nil, err
 			}
@@ -210,6 +213,9 @@ func (d *Decoder) readTypedMap() (interface{}, error) {
 		}
 	}
 
+	if mType.Kind() == reflect.Map {
+		d.mapRead(mValue)
+	}
 	m := mValue.Interface()
 	return m, nil
 }
@@ -230,13 +236,18 @@ func (d *Decoder) readUntypedMap() (interface{}, error) {
 			return nil, err
 		}
 
-		value, err := EnsureInterface(d.ReadData())
+		rawValue, err := d.ReadData()
 		if err != nil {
 			return nil, err
 		}
+		if h := holderOf(rawValue); h != nil && !h.complete {
+			return nil, errUnfinishedList
+		}
+		value, _ := EnsureInterface(rawValue, nil)
 
 		m[key] = value
 	}
+	d.mapRead(reflect.ValueOf(m))
 	return m, nil
 }
 
@@ -250,6 +261,10 @@ func (d *Decoder) readMap(dest reflect.Value, tag byte) error {
 		r, err := d.readRef(tag)
 		if err != nil {
 			return err
+		}
+		if cv, ok := d.convertedMap(r, UnpackPtrType(dest.Type())); ok {
+			SetValue(dest, cv)
+			return nil
 		}
 		SetValue(dest, r)
 		return nil
@@ -284,16 +299,20 @@ func (d *Decoder) readMap(dest reflect.Value, tag byte) error {
 		if err != nil {
 			return err
 		}
+		if h := holderOf(vl); h != nil && !h.complete {
+			return errUnfinishedList
+		}
 		k, err := convertValue(EnsureRawValue(key), mapTyp.Key())
 		if err != nil {
 			return newCodecError("readMap", err)
 		}
-		v, err := convertValue(itemValue(vl, mapTyp.Elem()), mapTyp.Elem())
+		v, err := convertValue(d.itemValue(vl, mapTyp.Elem()), mapTyp.Elem())
 		if err != nil {
 			return newCodecError("readMap", err)
 		}
 		mPtrValue.Elem().SetMapIndex(k, v)
 	}
+	d.mapRead(mPtrValue.Elem())
 	SetValue(dest, mPtrValue)
 	return nil
 }
